@@ -36,6 +36,7 @@ def edge_property(kind: str, to: str) -> dict[str, Any]:
 
 
 SCHEMA_KINDS = ("allOf", "allOfReq", "addl", "alias")
+MARK = "mk_"
 
 
 def prop_key(doc: dict[str, Any], i: int) -> str:
@@ -53,6 +54,9 @@ def graph_schemas(doc: dict[str, Any]) -> dict[str, Any]:
             schemas[n] = ref(alias[0]["to"])
             continue
         node: dict[str, Any] = {"type": "object", "properties": {"id": {"type": "string"}}, "required": ["id"]}
+        if doc.get("markers"):
+            # a property that only this schema has: lets the harness recognise the schema's model by CONTENT, whatever it is called
+            node["properties"][MARK + n] = {"type": "string"}
         members: list[Any] = []
         for i, e in mine:
             if e["kind"] == "allOf":
